@@ -48,6 +48,15 @@ PREFIX = "nutree_verif_c19_"
 # generation: spec = [name, is_dir, size, mtime_ns, [children]] in CREATION order
 
 
+import io  # noqa: E402
+
+from nutree import Tree  # noqa: E402
+
+APP_META = {"app": "scanner", "run": 1}
+_PLAIN = Tree("notes")
+_PLAIN.add("note").add("sub")
+
+
 def gen_entries(rng, depth, max_depth, n_lo, n_hi, clock, big):
     n = rng.randint(n_lo, n_hi)
     names = rng.sample(NAMES, n)
@@ -360,9 +369,20 @@ def check_dir(ctx, out, spec, sorts=(True, False), label="rand"):
                 target = os.path.join(base, f"saved_{int(sort)}_{int(compression)}_{int(explicit)}.json")
                 rcase = dict(case, phase="roundtrip", compression=compression, explicit_mapper=explicit)
                 try:
-                    tree.save(target, compression=compression)
+                    # the application keeps ONE metadata dict for all the files it writes - also those of its other (plain)
+                    # trees: nothing of an earlier save may stick to it
+                    meta_before = dict(APP_META)
+                    _PLAIN.save(io.StringIO(), meta=APP_META)
+                    tree.save(target, compression=compression, meta=APP_META)
+                    if APP_META != meta_before:
+                        out.fail(rcase, f"save() changed the caller's metadata dict: {APP_META} (was {meta_before})")
+                        APP_META.clear()
+                        APP_META.update(meta_before)
                     kw = dict(mapper=FileSystemTree.deserialize_mapper) if explicit else {}
-                    loaded = FileSystemTree.load(target, **kw)
+                    fm = {}
+                    loaded = FileSystemTree.load(target, file_meta=fm, **kw)
+                    if any(fm.get(k_) != v_ for k_, v_ in meta_before.items()):
+                        out.fail(rcase, f"file_meta {fm} does not contain the stored metadata {meta_before}")
                     back = nest_tree(loaded.children)
                 except Exception as e:  # noqa
                     out.fail(rcase, f"save/load of the scanned tree ({variant}) raised {type(e).__name__}: {e}", implementation=impl_w)
